@@ -82,15 +82,13 @@ Definition eq1 (q o : nat) : nat := if q =? o then 1 else 0.
 Definition act_unit (o : nat) (a : act) : nat :=
   match a with
   | AStore _ v => cref o v
-  | AIncSwap _ q true _ => eq1 q o
-  | ADec q => eq1 q o
+  | ADec q | ADecKeep q => eq1 q o
   | _ => 0
   end.
 
 Definition act_debt (o : nat) (a : act) : nat :=
   match a with
   | AInc q _ => eq1 q o
-  | AIncSwap _ q true _ => eq1 q o
   | _ => 0
   end.
 
@@ -134,35 +132,39 @@ Qed.
 
 (* ------------------------------------------------------------------ shapes of pending work *)
 
-Definition is_frame (a : act) : bool := match a with ARel _ _ | ASlabDel _ => true | _ => false end.
+Definition is_frame (a : act) : bool :=
+  match a with ARel _ _ | ASlabDel _ | ADec _ | ADecKeep _ => true | _ => false end.
 
 Definition single_ok (a : act) : Prop :=
   match a with
-  | AUncount _ | AIncSwap _ _ _ _ | ADec _ | APoolObt _ | ADrain => True
+  | AUntag _ | APoolObt _ | ADrain => True
   | _ => False
   end.
 
+(* the possible forms of a thread's pending work: a cascade (release frames and pending
+   decrements) optionally followed by the final store of a SetRef; or an operation that has not
+   yet passed its first atomic step *)
 Inductive shape : list act -> Prop :=
 | sh_frames : forall fr, forallb is_frame fr = true -> shape fr
 | sh_store : forall fr l v, forallb is_frame fr = true -> shape (fr ++ [AStore l v])
 | sh_inc1 : forall o src l, shape [AInc o src; AStore l (Some (o, true))]
-| sh_inc2 : forall o src l, shape [AInc o src; AUnref l; AStore l (Some (o, true))]
-| sh_unref1 : forall l, shape [AUnref l]
-| sh_unref2 : forall l v, shape [AUnref l; AStore l v]
+| sh_inc2 : forall o src l, shape [AInc o src; ATake l; AStore l (Some (o, true))]
+| sh_take1 : forall l, shape [ATake l]
+| sh_take2 : forall l v, shape [ATake l; AStore l v]
 | sh_single : forall a, single_ok a -> shape [a].
 
-Lemma frames_no_debt : forall o fr, forallb is_frame fr = true -> sumf (act_debt o) fr = 0 /\ sumf (act_unit o) fr = 0.
+Lemma frames_no_debt : forall o fr, forallb is_frame fr = true -> sumf (act_debt o) fr = 0.
 Proof.
   induction fr as [|a fr IH]; cbn; intros H; auto.
-  apply andb_true_iff in H. destruct H as (Ha & Hf). destruct (IH Hf) as (E1 & E2).
+  apply andb_true_iff in H. destruct H as (Ha & Hf). rewrite (IH Hf).
   destruct a; cbn in Ha; try discriminate; cbn; auto.
 Qed.
 
 Lemma shape_net : forall o todo, shape todo -> sumf (act_debt o) todo <= sumf (act_unit o) todo.
 Proof.
   intros o todo H. destruct H as [fr Hf|fr l v Hf|q src l|q src l|l|l v|a Ha].
-  - destruct (frames_no_debt o fr Hf). lia.
-  - rewrite !sumf_app. destruct (frames_no_debt o fr Hf). cbn. lia.
+  - rewrite (frames_no_debt o fr Hf). lia.
+  - rewrite !sumf_app. rewrite (frames_no_debt o fr Hf). cbn. lia.
   - cbn. unfold eq1. destruct (q =? o); lia.
   - cbn. unfold eq1. destruct (q =? o); lia.
   - cbn. lia.
@@ -200,15 +202,10 @@ Definition processed_none (ob : obj) (n : nat) : Prop :=
 Definition act_ok (s : state) (stk : list ref) (a : act) : Prop :=
   match a with
   | AInc o src => src_ok s stk o src
-  | AUnref l => wloc_ok (s_heap s) stk l
-  | AUncount l => wloc_ok (s_heap s) stk l
+  | ATake l | AUntag l | APoolObt l => wloc_ok (s_heap s) stk l
   | AStore l v => wloc_ok (s_heap s) stk l /\ not_self l (ptr v)
-  | AIncSwap l o c src => wloc_ok (s_heap s) stk l /\ not_self l (Some o) /\ (c = true -> src <> None /\ src_ok s stk o src)
-  | ADec _ => True
   | ARel o n => is_releasing (hobj s o) = true /\ n <= length (o_mem (hobj s o)) /\ processed_none (hobj s o) n
-  | APoolObt l => wloc_ok (s_heap s) stk l
-  | ADrain => True
-  | ASlabDel _ => True
+  | ADec _ | ADecKeep _ | ADrain | ASlabDel _ => True
   end.
 
 Definition rel_count (o : nat) (a : act) : nat := match a with ARel q _ => eq1 q o | _ => 0 end.
